@@ -25,6 +25,20 @@ func verifHEVCUnit(size int) verifHEVC {
 
 var verifC14Sizes = []int{3, 4, 7, 10}
 
+var verifC14FixedSizes []int
+
+// three units sized so that the second does not fit next to the first but does fit
+// with the third (aggregation after an overflow flush), and three equal small units
+func VerifC14ThreeUnits() {
+	if verifCase("shape", 0, 1) == 0 {
+		verifC14FixedSizes = []int{10, 3, 3}
+	} else {
+		verifC14FixedSizes = []int{3, 4, 3}
+	}
+	VerifC14RoundTrip()
+	verifC14FixedSizes = nil
+}
+
 func VerifC14RoundTrip() {
 	mtu := verifU16("mtu")
 	verifAssume(mtu >= 4)
@@ -33,13 +47,23 @@ func VerifC14RoundTrip() {
 		// with DONL the smallest packet that carries payload is a 6-byte FU (3 header + 2 DONL + 1)
 		verifAssume(mtu >= 6)
 	}
-	n := verifCase("units", 1, verifBound("C14.units"))
+	n := 0
+	if verifC14FixedSizes != nil {
+		n = len(verifC14FixedSizes)
+	} else {
+		n = verifCase("units", 1, verifBound("C14.units"))
+	}
 	var units []verifHEVC
 	var stream []byte
 	for i := 0; i < n; i++ {
-		u := verifHEVCUnit(verifC14Sizes[verifCase("size", 0, verifBound("C14.sizes")-1)])
-		if verifCase("startcode4", 0, 1) == 1 {
-			stream = append(stream, 0)
+		var u verifHEVC
+		if verifC14FixedSizes != nil {
+			u = verifHEVCUnit(verifC14FixedSizes[i])
+		} else {
+			u = verifHEVCUnit(verifC14Sizes[verifCase("size", 0, verifBound("C14.sizes")-1)])
+			if verifCase("startcode4", 0, 1) == 1 {
+				stream = append(stream, 0)
+			}
 		}
 		stream = append(stream, 0, 0, 1)
 		stream = append(stream, u.raw()...)
